@@ -6,7 +6,7 @@ from concurrent.futures import ThreadPoolExecutor
 REPO = os.environ.get('VERIF_REPO', '/repo')
 VERIF = os.path.dirname(os.path.dirname(os.path.abspath(__file__)))
 CXXFLAGS = ['-std=c++11', '-DASL_STATIC', '-DNDEBUG', '-I' + REPO + '/include', '-I' + VERIF + '/env', '-I' + VERIF + '/harness']
-IRFLAGS = ['-O1', '-fno-vectorize', '-fno-slp-vectorize', '-fno-unroll-loops', '-fno-strict-aliasing', '-S', '-emit-llvm', '-Xclang', '-disable-llvm-passes'][:7]
+IRFLAGS = ['-O1', '-fno-pic', '-fno-vectorize', '-fno-slp-vectorize', '-fno-unroll-loops', '-fno-strict-aliasing', '-S', '-emit-llvm', '-Xclang', '-disable-llvm-passes'][:8]
 
 
 def run(cmd, **kw):
